@@ -1,6 +1,7 @@
 package main
 
 import (
+	"math/big"
 	"os"
 	"time"
 
@@ -228,6 +229,57 @@ func scUnstakeDowntimeRestake(w *sim.World) {
 	w.Run()
 }
 
+// scBurnAndEvidence (burn and downtime punishment in one BeginBlock): a validator with a stake of twenty-odd power units
+// misses every vote; the downstream module queues a burn in the last block before the downtime punishment falls due, so
+// both settlements fall into one BeginBlock and each must be computed from the power the statement says (a double-sign
+// conviction burns everything in this fork, so its order relative to a burn is invisible; the downtime slash is partial).
+func scBurnAndEvidence(w *sim.World) {
+	cp := sim.ParamsOf(w.View())
+	var v *sim.Actor
+	for skip := 0; skip < 6; skip++ {
+		// an actor that can afford the stake
+		if a := freeActor(w, skip); a != nil && w.View().Bal(a.AddrHex()).Cmp(big.NewInt(25000000+20*cp.Min)) > 0 {
+			v = a
+			break
+		}
+	}
+	if v == nil {
+		w.Run()
+		return
+	}
+	w.Reserved[v.AddrHex()] = true
+	defer delete(w.Reserved, v.AddrHex())
+	stake := int64(20500000) + w.R.Int63n(400000)
+	if stake < cp.Min {
+		stake = 20*cp.Min + cp.Min/2
+	}
+	w.Force("stake-20-units", stakeTx(w, v, stake))
+	if !w.Block() {
+		return
+	}
+	w.MissOverride[v.AddrHex()] = 100
+	queued := false
+	for i := int64(0); i < cp.Window+12; i++ {
+		w.Step(1 + i%3)
+		if si := w.View().Sign[v.AddrHex()]; si != nil && !queued && w.Env.H+1 == si.Start+cp.Window {
+			// executed in the EndBlock of the last block before the punishment falls due: the burn is settled in the
+			// same BeginBlock as the downtime slash
+			sev := []string{"0.1", "0.25", "0.5", "0.033"}[w.R.Intn(4)]
+			w.Env.A.Ext.Pending = append(w.Env.A.Ext.Pending, sim.ExtAction{Kind: "burn", Phase: "end", Addr: v.Addr, Severity: sev})
+			queued = true
+		}
+		if !w.Block() {
+			return
+		}
+		if x := val(w, v); queued && x != nil && x.Jailed {
+			break
+		}
+	}
+	delete(w.MissOverride, v.AddrHex())
+	delete(w.Reserved, v.AddrHex())
+	w.Run()
+}
+
 // scJailRaiseUnjail: stake twice the minimum -> miss votes until jailed -> governance raises pos/StakeMinimum above the
 // remaining stake -> unjail at the expiry (must be refused: below the minimum now in force) -> begin-unstake ->
 // maturity (must still be paid out).
@@ -437,6 +489,24 @@ func scenarioFor(prop string, i int, r *sim.Rand) (func(w *sim.World), func(p *s
 				}
 			}
 		case 7:
+			if prop == "C07" || prop == "C04" {
+				return scBurnAndEvidence, func(p *sim.Profile) {
+					p.CustomPos = true
+					if p.Pos.SignedBlocksWindow == 0 {
+						p.Pos = sim.SmallWindowPos(r)
+					}
+					p.Pos.MaxValidators = 100000
+					p.Pos.SlashFractionDowntime = []sdk.Dec{sdk.NewDecWithPrec(5, 2), sdk.NewDecWithPrec(1, 1), sdk.NewDecWithPrec(25, 2)}[i/8%3]
+					p.Pos.MinSignedPerWindow = sdk.NewDecWithPrec(5, 1)
+					p.FatalEvPct, p.OldEvPct, p.NearOldEvPct = 0, 0, 0
+					wt := map[string]int{}
+					for k, v := range p.W {
+						wt[k] = v
+					}
+					wt["govparam"], wt["acl"] = 0, 0
+					p.W = wt
+				}
+			}
 			if prop != "C06" {
 				break
 			}
